@@ -99,6 +99,31 @@ def gen_cases(seed, tier):
             env.update({p: rng.choice([0.5, 1.0, 2.0, 0.1, 4.0]) for p in PARAMS}); env["t"] = rng.choice([0.0, 0.5, 2.0])
             pts.append({"env": env, "V": rng.choice([0.5, 2.0, 3.0])})
         cases.append({"kind": "expr", "tree": tr, "string": to_string(tr), "points": pts, "via": rng.choice(["propensity", "rule", "parse"])})
+    # volume sweep: every operator x every argument position carries a volume-bearing subtree, the other positions simple
+    # fillers; more evaluation points, so that for Max / Min the volume-bearing argument decides the value at some of them
+    # (added after the seeded change S_C02: MinTerm.volume_evaluate reading its first argument without the volume)
+    volsubs = [["vol"], ["mul", ["vol"], ["par", PARAMS[0]]], ["pow", ["vol"], ["num", 2.0]], ["div", ["sp", SPECIES[0]], ["vol"]], ["add", ["vol"], ["sp", SPECIES[1]]]]
+    def filler():
+        k = rng.random()
+        if k < 0.4: return ["sp", rng.choice(SPECIES)]
+        if k < 0.7: return ["add", ["sp", rng.choice(SPECIES)], ["num", rng.choice([0.5, 1.0, 2.0])]]
+        return ["mul", ["par", rng.choice(PARAMS)], ["sp", rng.choice(SPECIES)]]
+    reps = 1 if tier == "quick" else 6
+    for _ in range(reps):
+        for op, arities in (("add", (2, 3)), ("mul", (2, 3)), ("max", (2, 3)), ("min", (2, 3)), ("sub", (2,)), ("div", (2,)), ("pow", (2,)), ("exp", (1,)), ("log", (1,)), ("abs", (1,)), ("hea", (1,))):
+            for ar in arities:
+                for pos in range(ar if op != "pow" else 1):
+                    for vs in volsubs:
+                        args = [filler() for _ in range(ar)]; args[pos] = vs
+                        if op == "pow": args[1] = ["num", rng.choice([2.0, 3.0, 0.5])]
+                        tr = [op] + args
+                        if rng.random() < 0.3: tr = ["add", tr, ["t"]]
+                        pts = []
+                        for _ in range(6):
+                            env = {s_: rng.choice([0.0, 1.0, 2.0, 3.5, 6.0, 0.25]) for s_ in SPECIES}
+                            env.update({p_: rng.choice([0.5, 1.0, 2.0, 0.1, 4.0]) for p_ in PARAMS}); env["t"] = rng.choice([0.0, 0.5, 2.0])
+                            pts.append({"env": env, "V": rng.choice([0.5, 2.5, 3.0, 0.2])})
+                        cases.append({"kind": "expr", "tree": tr, "string": to_string(tr), "points": pts, "via": rng.choice(["propensity", "rule", "parse"]), "family": "volsweep"})
     for _ in range(40 if tier == "quick" else 400):
         bad = rng.choice(["unknown", "function", "unbalanced", "unknown_under"])
         base = to_string(gen_tree(rng, 2))
@@ -232,6 +257,7 @@ def stats(cases):
     from collections import Counter
     return {"kinds": dict(Counter(c["kind"] for c in cases)), "via": dict(Counter(c["via"] for c in cases)),
             "depth": dict(Counter(str(depth(c["tree"])) for c in cases if c["kind"] == "expr")),
+            "volume_position_sweep": sum(1 for c in cases if c.get("family") == "volsweep"),
             "colliding_names_used": sum(1 for c in cases if c["kind"] == "expr" and any(n in ("C", "S", "E", "N", "O", "Q", "I") for n in names(c["tree"])))}
 def shrink(case, fails):
     if case["kind"] != "expr": return case
